@@ -503,6 +503,15 @@ def r1_sort_protocol(cx):
     cx.ob("R1", "R1/finalize/unsorted-never-goes-on", not through, f, "with the check answering false, the schema is not reached from the first sort (reached at lines %s)" % (through or "none"))
     last_not_checked = [t.get("ln") for i, t in sorts if not any(ck in b.reach_after(i) for ck, _, _ in checks)]
     cx.ob("R1", "R1/finalize/every-sort-is-followed-by-the-check", not last_not_checked, f, "every sort is followed by the check (not followed: lines %s)" % (last_not_checked or "none"))
+    # the comparator reads the positions of entries (a sort key may be a deferred word bound to an entry index): after each
+    # sort the entries are given their new positions *before* the order is checked, otherwise the check looks at stale keys
+    renum = {i for i, t in b.calls(r"entry_store::set_entry_idx(::<.*>)?$")}
+    stale = []
+    for si, st_ in sorts:
+        for ck, _, _ in checks:
+            if ck in b.reach_after(si) and ck in b.reachable(b.succ[si][0], avoid=renum | pan):
+                stale.append(st_.get("ln"))
+    cx.ob("R1", "R1/finalize/renumbered-before-the-check", bool(renum) and not stale, f, "between every sort and the check that follows it the entries are renumbered (set_entry_idx); sorts followed by a check on stale positions: lines %s" % (sorted(set(stale)) or "none"))
     rev = [t.get("ln") for i, t in b.calls(r"::reverse$|Iterator>::rev$|::swap$|::rotate_(left|right)$|::shuffle") if not b.is_cleanup(i) and t["args"] and ("field", "entries") in b.origins(t["args"][0])]
     cx.ob("R1", "R1/finalize/nothing-reorders-afterwards", not rev, f, "no reverse / swap / rotate of the entries in finalize (lines %s)" % (rev or "none"))
 
@@ -595,12 +604,19 @@ def r7_value_ids_in_byte_order(cx):
         o.key = "R7" + o.key[2:] if o.key.startswith("R4") else o.key
 
 
+def r8_reindexed_after_every_sort(cx):
+    """= C15-R1 under C03: every reordering of the entries is followed by a re-indexing before anything consumes the order"""
+    import c15
+    c15.r1_reindex(cx, rule="R8")
+
+
 RULES = [
-    ("R1", r1_sort_protocol, 6),
+    ("R8", r8_reindexed_after_every_sort, 7),
+    ("R1", r1_sort_protocol, 7),
     ("R2", r2_writer_array_order, 12),
     ("R3", r3_writer_value_direction, 1),
     ("R4", r4_entry_compare, 3),
     ("R5", r5_find, 9),
     ("R6", r6_reader_compare, 8),
-    ("R7", r7_value_ids_in_byte_order, 3),
+    ("R7", r7_value_ids_in_byte_order, 5),
 ]
